@@ -66,10 +66,14 @@ private theorem flatMap_perm {α β} (f : α → List β) {l l' : List α} (h : 
     exact List.Perm.append List.perm_append_comm (List.Perm.refl _)
   | trans _ _ ih1 ih2 => exact ih1.trans ih2
 
-/-- the schemas `s` and `s'` list the same type and directive definitions, possibly in another order -/
+/-- the schemas `s` and `s'` list the same type and directive definitions, possibly in another order
+    (and name the same root operation types) -/
 structure Reordered (s s' : SchemaD) : Prop where
   types : s.types.Perm s'.types
   directives : s.directives.Perm s'.directives
+  query : s.query = s'.query
+  mutation : s.mutation = s'.mutation
+  subscription : s.subscription = s'.subscription
 
 private theorem findType_perm {s s' : SchemaD} (h : Reordered s s') (u : Uniq TypeD.name s.types) (nm : String) :
     s.findType nm = s'.findType nm := by
@@ -96,6 +100,9 @@ theorem diff_perm (o o' n n' : SchemaD) (ho : Reordered o o') (hn : Reordered n 
   have eo := fun nm => findType_perm ho uo nm
   have edn := fun nm => find_name_perm (name := DirectiveD.name) hn.directives udn nm
   have edo := fun nm => find_name_perm (name := DirectiveD.name) ho.directives udo nm
+  have h0 : (diffRootTypes o n).Perm (diffRootTypes o' n') := by
+    unfold diffRootTypes
+    rw [ho.query, ho.mutation, ho.subscription, hn.query, hn.mutation, hn.subscription]
   have h1 : (findRemovedTypes o n).Perm (findRemovedTypes o' n') := by
     unfold findRemovedTypes; simp only [en]; exact (ho.types.filter _).map _
   have h2 : (findAddedTypes o n).Perm (findAddedTypes o' n') := by
@@ -117,7 +124,7 @@ theorem diff_perm (o o' n n' : SchemaD) (ho : Reordered o o') (hn : Reordered n 
     unfold diffInterfaceTypes; exact flatMap_perm _ (mp _)
   have h9 : (diffInputTypes o n).Perm (diffInputTypes o' n') := by
     unfold diffInputTypes; exact flatMap_perm _ (mp _)
-  exact ((((((((h1.append h2).append h3).append h4).append h5).append h6).append h7).append h8).append h9)
+  exact (((((((((h0.append h1).append h2).append h3).append h4).append h5).append h6).append h7).append h8).append h9)
 
 /-- the report, read as a multiset, is the same: every change is reported equally often -/
 theorem diff_perm_count (o o' n n' : SchemaD) (ho : Reordered o o') (hn : Reordered n n')
@@ -154,7 +161,7 @@ private def nEx' : SchemaD := { types := [tE', tQ', tP'], directives := [dD] }
 
 example : Reordered oEx oEx' ∧ Reordered nEx nEx' ∧ Uniq TypeD.name oEx.types ∧ Uniq TypeD.name nEx.types
     ∧ Uniq DirectiveD.name oEx.directives ∧ Uniq DirectiveD.name nEx.directives := by
-  refine ⟨⟨?_, ?_⟩, ⟨?_, ?_⟩, ?_, ?_, ?_, ?_⟩
+  refine ⟨⟨?_, ?_, rfl, rfl, rfl⟩, ⟨?_, ?_, rfl, rfl, rfl⟩, ?_, ?_, ?_, ?_⟩
   · exact (List.perm_append_comm (l₁ := [tQ]) (l₂ := [tP, tE]))
   · exact List.Perm.swap _ _ _
   · exact (List.perm_append_comm (l₁ := [tQ', tP']) (l₂ := [tE']))
